@@ -63,7 +63,7 @@ func VerifH_C10_Publish() {
 		done <- struct{}{}
 	}()
 	big := []byte{4, 5}
-	if verifChoice("bigpayload", 2) == 1 {
+	if verifParam("bigpayload", 0) == 1 {
 		big = make([]byte, 20000) // larger than any internal buffer or "small packet" threshold
 		big[0], big[19999] = 4, 5
 	}
